@@ -364,6 +364,20 @@ def lathe_rules(rep, prog):
                 same_dir = [e for e in e1 if e in e2]
                 ok_strip = len(shared) == 1 and not same_dir
                 rep.inst("C15.L1", "lathe quad: corners p, p+1, p+n, p+n+1 (n = %s); triangles share exactly one edge in opposite directions: %s" % (n_poly, ok_strip), config=cfg)
+    # every iteration of the innermost strip loop emits BOTH triangles: a quad whose triangle is skipped on some
+    # data-dependent condition (a "degenerate" test with an absolute tolerance, say) leaves a hole in small solids
+    for bi, _ps in strip:
+        inner = [h for h, _s in loops if in_loop(b, h, bi)]
+        inner.sort(key=lambda h: len(b.natural_loop(h)))
+        if inner:
+            h = inner[0]
+            outside = set(range(len(b.blocks))) - set(b.natural_loop(h)) - {h}
+            skip = h in b.reachable_from_succs(h, removed_blocks={bi} | outside, unwind=False)
+            rep.inst("C15.L1", "strip push_face at %s runs on every iteration of its loop: %s" % (b.where(bi, None), not skip), config=cfg)
+            if skip:
+                rep.violate("C15.L1", "L1|strip-conditional", b.where(bi, None),
+                            "a lathe strip triangle is emitted only conditionally: an iteration of the sector loop can complete without this push_face, "
+                            "so some quads lose a triangle and the surface is not closed", config=cfg)
     if not ok_strip:
         rep.violate("C15.L1", "L1|strip", b.where(), "the two triangles of a lathe quad do not tile the quad p,p+1,p+n,p+n+1 with a consistently oriented shared diagonal", config=cfg)
     ok_caps = False
